@@ -430,7 +430,7 @@ func RunInit(cfg Config, out interface{ Write([]byte) (int, error) }) int {
 	}
 	bud := map[string]int{}
 	for _, a := range []string{"user.release2", "user.release3", "user.rollback", "user.scale", "user.approve", "user.pause", "user.resume",
-		"user.disable", "user.enable", "user.delete", "user.editplan", "user.jump", "user.editidle", "user.deleteidle", "user.release3late", "user.trdelete", "env.unready", "total"} {
+		"user.disable", "user.enable", "user.delete", "user.editplan", "user.jump", "user.editidle", "user.deleteidle", "user.release3late", "user.trdelete", "user.switchstyle", "env.unready", "total"} {
 		if v, ok := cfg.Budget[a]; ok {
 			bud[a] = v
 		} else if a == "total" {
